@@ -3,8 +3,11 @@
 
 design half : TLC checks spec/Queue.tla (N callers racing on the CAS of
               processQueue, handlers that nest mutations) exhaustively:
-              Mutex, NoStranding, NoneLost, TickOrder, TickCount, NoNesting as
-              invariants and EventuallyProcessed under weak fairness.
+              Mutex, NoStranding, NoneLost, TickOrder, TickCount, NoNesting,
+              WhenQueueClosed as invariants and EventuallyProcessed under weak
+              fairness.  Every mutation has an outcome (clock moved / accepted
+              no-op / vetoed); the WhenQueue bindings (`wq`) are closed by the
+              end of the transition of their tick whatever its outcome.
 binding half: the harness FORCES interleavings on the real machine through the
               verif gate hooks (qm.done, pq.enter, pq.casLost/casWon, pq.popped,
               pq.loopExit, pq.released, pq.queueEnd): every schedule of
@@ -16,7 +19,11 @@ binding half: the harness FORCES interleavings on the real machine through the
               tick and flag) and the C04 formulas are evaluated on the logged
               end state (queue empty, every returned tick processed, WhenQueue
               closed - accepted or canceled -, nothing lost, tick order, no
-              two handlers / eval functions at once).  Free-running executions
+              two handlers / eval functions at once) and, at every gate, the
+              open WhenQueue channels (= Queue.tla `wq`, WhenQueueClosed on the
+              logged values).  Scenario families: plain Adds, nesting handlers,
+              vetoes, Eval / CanAdd, accepted no-ops (add of an active
+              non-Multi state) issued by callers and by handlers.  Free-running executions
               (8 goroutines, Add/Remove/CanAdd/Eval, nesting handlers) are
               judged on their end state.
 """
@@ -27,7 +34,21 @@ import tlcrun
 from common import *
 
 PROP = "C04"
-INV = ["Mutex", "NoStranding", "NoneLost", "TickOrder", "TickCount", "NoNesting"]
+INV = ["Mutex", "NoStranding", "NoneLost", "TickOrder", "TickCount", "NoNesting", "WhenQueueClosed"]
+
+
+def codes(spec):
+    """'1.1,n2.1' -> '{11, 121}' (n = the mutation nested by that one)"""
+    out = []
+    for x in spec.split(","):
+        if x:
+            a, b = x.lstrip("n").split(".")
+            out.append(str((100 if x.startswith("n") else 0) + int(a) * 10 + int(b)))
+    return "{" + ", ".join(out) + "}"
+
+
+def sc_codes(items):
+    return "{" + ", ".join(str((100 if len(x) == 3 else 0) + x[0] * 10 + x[1]) for x in items) + "}"
 
 
 def cset(n):
@@ -39,22 +60,27 @@ def check(tier):
     sd = seed()
     binary = build_harness()
     # ---- design half
-    mcs = [(2, 2, "{11}", "{22}"), (3, 1, "{11}", "{21}")] if tier == "quick" else \
-          [(2, 2, "{11, 21}", "{}"), (2, 2, "{11}", "{12, 21}"), (3, 1, "{11}", "{31}"),
-           (3, 2, "{11}", "{21, 32}"), (4, 1, "{}", "{11}")]
+    # (callers, muts, nest, prep, noop, veto): the outcome of a transition - clock moved,
+    # accepted no-op, vetoed - per mutation (10c+k) and per nested mutation (100+10c+k)
+    mcs = [(2, 2, "{11}", "{22}", "{12, 111}", "{21}"), (3, 1, "{11}", "{21}", "{31}", "{}")] if tier == "quick" else \
+          [(2, 2, "{11, 21}", "{}", "{111, 22}", "{12}"), (2, 2, "{11}", "{12, 21}", "{22}", "{}"),
+           (3, 1, "{11}", "{31}", "{21, 111}", "{}"),
+           (3, 2, "{11}", "{21, 32}", "{12, 31}", "{22}"), (4, 1, "{}", "{11}", "{21, 41}", "{31}")]
     runs = []
-    for n, muts, nest, prepc in mcs:
-        consts = dict(Callers=cset(n), MutsPer=muts, NestCodes=nest, PrepCodes=prepc, Recheck=True)
+    for n, muts, nest, prepc, noopc, vetoc in mcs:
+        consts = dict(Callers=cset(n), MutsPer=muts, NestCodes=nest, PrepCodes=prepc, Recheck=True,
+                      NoopCodes=noopc, VetoCodes=vetoc)
         r = tlcrun.run_tlc("MCQueue", dict(spec="Spec", consts=consts, invariants=INV),
                            workers=8, timeout=1200)
         if r["violated"] or (r["errors"] and not r["timed_out"]):
             raise Inconclusive("Queue.tla violates its formulas: %s %s" % (r["violated"], r["errors"][:2]))
-        runs.append(dict(config="callers=%d muts=%d nest=%s" % (n, muts, nest),
+        runs.append(dict(config="callers=%d muts=%d nest=%s noop=%s veto=%s" % (n, muts, nest, noopc, vetoc),
                          states_generated=r["states"], distinct=r["distinct"],
                          wall_s=round(r["wall"], 1), timed_out=r["timed_out"]))
     # liveness on the unconstrained fair spec
     r = tlcrun.run_tlc("MCQueue", dict(spec="FairSpec", consts=dict(Callers=cset(2), MutsPer=2,
-                       NestCodes="{11}", PrepCodes="{22}", Recheck=True), properties=["EventuallyProcessed"]),
+                       NestCodes="{11}", PrepCodes="{22}", Recheck=True, NoopCodes="{12, 111}", VetoCodes="{21}"),
+                       properties=["EventuallyProcessed"]),
                        workers=4, timeout=900)
     if r["violated"] or "Temporal properties were violated" in r["out"] or \
             (r["errors"] and not r["timed_out"]):
@@ -75,6 +101,9 @@ def check(tier):
                     (3, 1, "1.1", "3.1", "", ["-random", "300"]),
                     (2, 1, "", "", "1.1", ["-enum", "-max", "3000"]),       # Eval vs Add
                     (3, 2, "", "", "2.2,3.1", ["-random", "400"]),          # CanAdd / Eval queued behind a drain
+                    # accepted no-ops (remove of an inactive / add of an active state), from callers
+                    # and from handlers, also as the LAST mutation of the queue
+                    (3, 1, "2.1", "3.1", "", ["-random", "200"], "1.1,n2.1"),
                     (8, 40, "", "", "", ["-free", "100"])]
         else:
             # measured: a forced schedule costs 30-60 ms wall (gate hand-offs), so one
@@ -89,12 +118,18 @@ def check(tier):
                     (3, 2, "1.1,2.2", "", "", ["-random", "5000"]),
                     (3, 2, "", "", "2.2,3.1", ["-random", "5000"]),
                     (4, 2, "1.1", "2.1", "3.2,4.1", ["-random", "3000"]),
+                    (2, 1, "", "", "", ["-enum", "-max", "15000"], "2.1"),
+                    (2, 1, "1.1", "", "", ["-enum", "-max", "15000"], "n1.1"),
+                    (2, 2, "1.1", "", "", ["-random", "5000"], "1.2,2.1,n1.1"),
+                    (3, 2, "2.1", "3.1", "", ["-random", "5000"], "1.1,1.2,n2.1,3.2"),
                     (8, 40, "", "", "", ["-free", "1000"]),
                     (16, 25, "", "", "", ["-free", "500"])]
         nexec = nlines = 0
         samples = []
         distinct = set()
-        for i, (n, muts, nest, veto, prep, mode) in enumerate(plan):
+        for i, item in enumerate(plan):
+            n, muts, nest, veto, prep, mode = item[:6]
+            noop = item[6] if len(item) > 6 else ""
             pref = os.path.join(d, "q%d" % i)
             cmd = [binary, "queue", "-callers", str(n), "-muts", str(muts), "-seed", str(sd * 10 + i),
                    "-out", pref] + mode
@@ -104,6 +139,8 @@ def check(tier):
                 cmd += ["-veto", veto]
             if prep:
                 cmd += ["-prep", prep]
+            if noop:
+                cmd += ["-noop", noop]
             rc, out = run(cmd, timeout=3000 if tier == "quick" else 9000)
             if rc != 0:
                 raise Inconclusive("queue driver failed: " + out[-2000:])
@@ -116,7 +153,7 @@ def check(tier):
             prepcodes = "{" + ", ".join(str(int(x.split(".")[0]) * 10 + int(x.split(".")[1]))
                                         for x in prep.split(",") if x) + "}"
             consts = dict(Callers=cset(n), MutsPer=muts, NestCodes=nestcodes if "-free" not in mode else "{}",
-                          PrepCodes=prepcodes, Recheck=True)
+                          PrepCodes=prepcodes, Recheck=True, NoopCodes=codes(noop), VetoCodes=codes(veto))
             res = tlcrun.validate_traces("TraceQueue", consts, files, timeout=3000)
             for r in res:
                 if r["result"] is None:
@@ -136,7 +173,7 @@ def check(tier):
                     while not lines[e].startswith('{"ev":"qend"'):
                         e += 1
                     init, end = json.loads(lines[s]), json.loads(lines[e])
-                    sig = dict(formula=f, scenario={k: init[k] for k in ("callers", "mutsPer", "nest", "veto", "prep")},
+                    sig = dict(formula=f, scenario={k: init[k] for k in ("callers", "mutsPer", "nest", "veto", "prep", "noop")},
                                sched=end.get("sched"))
                     rep.violation(sig, dict(kind="queue", property=PROP, formula=f,
                                             scenario=sig["scenario"], sched=end.get("sched"),
@@ -149,9 +186,9 @@ def check(tier):
                 for ln in open(fn):
                     if ln.startswith('{"ev":"qend"'):
                         e = json.loads(ln)
-                        distinct.add((n, muts, nest, veto, prep, tuple(e.get("sched") or [])))
+                        distinct.add((n, muts, nest, veto, prep, noop, tuple(e.get("sched") or [])))
                         if len(samples) < 3 and any(x["res"] == "queued" for x in e["returned"]):
-                            samples.append(dict(scenario=dict(callers=n, muts=muts, nest=nest, veto=veto),
+                            samples.append(dict(scenario=dict(callers=n, muts=muts, nest=nest, veto=veto, noop=noop),
                                                 schedule=e.get("sched"), returned=e["returned"][:4],
                                                 qlen=e["qlen"], qtick=e["qtick"]))
         rep.coverage.update(
@@ -191,7 +228,9 @@ def replay(path):
         rc, out = run(cmd, timeout=600)
         if rc != 0:
             raise Inconclusive(out[-1500:])
-        consts = dict(Callers=cset(sc["callers"]), MutsPer=sc["mutsPer"], NestCodes=nest, PrepCodes=prepc, Recheck=True)
+        consts = dict(Callers=cset(sc["callers"]), MutsPer=sc["mutsPer"], NestCodes=nest, PrepCodes=prepc, Recheck=True,
+                      NoopCodes=sc_codes(sc.get("noop", [])),
+                      VetoCodes="{}" if obj.get("free") else sc_codes(sc.get("veto", [])))
         res = tlcrun.validate_traces("TraceQueue", consts, [os.path.join(d, "r.0.ndjson")])
         for r in res:
             if r["result"] is None:
